@@ -73,6 +73,8 @@ for d in sorted(glob.glob(os.path.join(ROOT, "seeded", "C*-*"))):
             det += 1
         elif own.get("exit") == 1:
             verdict = "exit 1 (no signature parsed)"
+        elif own.get("exit") == 0 and m.get("note"):
+            verdict = "not detected — by design (the property as stated still holds; see meta.json note)"
         elif own.get("exit") == 0:
             verdict = "MISSED"
         else:
